@@ -9,7 +9,15 @@ import (
 	"github.com/oauth2-proxy/oauth2-proxy/v7/verifx/sched"
 )
 
-func pt(l string) { sched.Point(l) }
+// Hooks switches the scheduling points of atomic operations on (default); explorations whose
+// subject is not the instrumented packages switch them off to keep their state space small.
+var Hooks = true
+
+func pt(l string) {
+	if Hooks {
+		sched.Point(l)
+	}
+}
 
 func LoadPointer(addr *unsafe.Pointer) unsafe.Pointer { pt("atomic.LoadPointer"); return real.LoadPointer(addr) }
 func StorePointer(addr *unsafe.Pointer, v unsafe.Pointer) {
